@@ -54,6 +54,7 @@ type Params struct {
 	// third lifetime
 	ReplayP      float64 // read-only replay of L2's values
 	CleanAgainP  float64
+	ExtraLifeP   float64 // a further edited run with another environment before the closing replay
 	NonTestNames bool
 }
 
@@ -651,6 +652,21 @@ func World(seed uint64, index int, p *Params) *check.World {
 		l2.Faults = b.faults(prog2, r.Bool(p.KillP))
 	}
 	w.Lifetimes = append(w.Lifetimes, l2)
+	if r.Bool(p.ExtraLifeP) {
+		prog2 = b.edit(prog2)
+		lx := &scen.Lifetime{Mode: "runner", Count: pickInt(r, p.Counts), Env: pickEnv(r, p.Envs), Configs: b.cfgs, Tests: prog2, Note: "L2b another edited run"}
+		if r.Bool(p.RunP) {
+			lx.Run = b.runPattern(prog2)
+		}
+		if r.Bool(p.CleanP) {
+			lx.Clean = &scen.CleanSpec{}
+			if r.Bool(p.SortP) {
+				lx.Clean.Opts, lx.Clean.Sort = true, true
+			}
+		}
+		w.Lifetimes = append(w.Lifetimes, lx)
+		l2 = lx
+	}
 	if r.Bool(p.ReplayP) {
 		l3 := &scen.Lifetime{Mode: "runner", Count: 1, Env: map[string]string{"CI": "true"}, Configs: b.cfgs, Tests: clone(prog2), Note: "L3 read-only replay"}
 		stripSkips(l3.Tests)
